@@ -140,9 +140,9 @@ func famDER(r *ev.Run, p *pool) {
 							if ctx == 2 && fl.f&refscript.WITNESS == 0 {
 								continue
 							}
-							tag := fmt.Sprintf("sig/%s%s/%s", enc.name, sfx, ctxNames[ctx])
+							tag := fmt.Sprintf("sig/%s%s", encClass(enc.name, sig), sfx)
 							if ht != 1 {
-								tag = fmt.Sprintf("sig-hashtype/%s%s/%s", htClass(ht), sfx, ctxNames[ctx])
+								tag = fmt.Sprintf("sig-hashtype/%s%s", htClass(ht), sfx)
 							}
 							l = append(l, &Case{Fam: "der", Tag: tag, Label: fmt.Sprintf("P2PK%s in %s, signature encoding %s, hash type 0x%02x (sig %x)", sfx, ctxNames[ctx], enc.name, ht, trunc(sig)), Tx: tx, Idx: 0, Spent: sp, Flags: fl.f, FName: fl.name})
 						}
@@ -158,7 +158,7 @@ func famDER(r *ev.Run, p *pool) {
 								if ctx == 2 && fl.f&refscript.WITNESS == 0 {
 									continue
 								}
-								l = append(l, &Case{Fam: "der", Tag: fmt.Sprintf("sig/%s%s/%s", v.n, sfx, ctxNames[ctx]), Label: fmt.Sprintf("P2PK%s in %s, signature %s", sfx, ctxNames[ctx], v.n), Tx: tx, Idx: 0, Spent: sp, Flags: fl.f, FName: fl.name})
+								l = append(l, &Case{Fam: "der", Tag: fmt.Sprintf("sig/%s%s", v.n, sfx), Label: fmt.Sprintf("P2PK%s in %s, signature %s", sfx, ctxNames[ctx], v.n), Tx: tx, Idx: 0, Spent: sp, Flags: fl.f, FName: fl.name})
 							}
 						}
 					}
@@ -203,7 +203,7 @@ func famDER(r *ev.Run, p *pool) {
 						if ctx == 2 && fl.f&refscript.WITNESS == 0 {
 							continue
 						}
-						l = append(l, &Case{Fam: "der", Tag: fmt.Sprintf("pubkey/%s%s/%s", pb.n, sfx, ctxNames[ctx]), Label: fmt.Sprintf("P2PK%s in %s with public key encoding %s", sfx, ctxNames[ctx], pb.n), Tx: tx, Idx: 0, Spent: sp, Flags: fl.f, FName: fl.name})
+						l = append(l, &Case{Fam: "der", Tag: fmt.Sprintf("pubkey/%s%s", pb.n, sfx), Label: fmt.Sprintf("P2PK%s in %s with public key encoding %s", sfx, ctxNames[ctx], pb.n), Tx: tx, Idx: 0, Spent: sp, Flags: fl.f, FName: fl.name})
 					}
 				}
 			}
@@ -212,6 +212,20 @@ func famDER(r *ev.Run, p *pool) {
 	})
 	b.flush()
 	sample(p, "der", map[string]interface{}{"signature_encodings": len(sigEncodings()), "hash_types": hashTypes, "flag_sets": len(flagSets)})
+}
+
+// encClass: encodings that only differ in HOW they deviate from strict DER while
+// Core's lax parser reads the same in-range (r, s) share one class.
+func encClass(name string, sigWithHashType []byte) string {
+	switch name {
+	case "canonical", "high-s", "s-plus-n", "r-plus-n":
+		return name
+	}
+	r, s, ok := refsig.ParseDERLax(sigWithHashType[:len(sigWithHashType)-1])
+	if ok && !refsig.IsStrictDER(sigWithHashType) && r.Sign() > 0 && s.Sign() > 0 {
+		return "non-strict-der-readable-by-lax-parser"
+	}
+	return "malformed(" + name + ")"
 }
 
 func htClass(ht byte) string {
@@ -267,7 +281,7 @@ func famFAD(r *ev.Run, p *pool) {
 					tx.In[0].Script = pushData(blob) // not necessarily minimal: irrelevant without MINIMALDATA
 				}
 				for _, fl := range append(append([]flagSet{}, constFl...), plainFl...) {
-					b.add(&Case{Fam: "fad", Tag: fmt.Sprintf("checksig/%s/%s-copy/%s", sizeClass(size), f.name, ctxNames[ctx]),
+					b.add(&Case{Fam: "fad", Tag: fmt.Sprintf("checksig/%s/%s-copy", sizeClass(size), f.name),
 						Label: fmt.Sprintf("script holds a %s copy of the %d-byte signature element before DROP <pub> CHECKSIG NOT (%s)", f.name, size, ctxNames[ctx]), Tx: tx, Idx: 0, Spent: sp, Flags: fl.f, FName: fl.name})
 				}
 			}
